@@ -444,7 +444,7 @@ def _conformance_with_resets(ctx, blocks, resets, chunk=2500):
             futs = [ex.submit(_conf_chunk, ctx, "%s_c%d" % (val, k), c, resets, val) for k, c in enumerate(chunks)]
             out = [f.result() for f in futs]
         res[val] = (sum(a for a, _ in out), [d for _, dr in out for d in dr])
-        about_impl = [d for d in res[val][1] if (d.get("line") or {}).get("x") == "low" or (d.get("line") or {}).get("ev") in ("drop", "fin")]
+        about_impl = [d for d in res[val][1] if (d.get("line") or {}).get("x") == "low"]
         if len(res[val][1]) < 3 or len(about_impl) < 3:
             break   # (nearly) everything conforms with this value, or the disagreement is not about it
     best = min(res, key=lambda v: (len(res[v][1]), v != order[0]))
